@@ -11,6 +11,8 @@ import VhostModel.Drv.Vq
 import VhostModel.Drv.Proxy
 import VhostModel.Drv.BeSrv
 import VhostModel.Drv.Gpu
+import VhostModel.Drv.Ring
+import VhostModel.Drv.Worker
 /-! Model driver: one scenario per input line, one prediction per output line. -/
 
 def dispatch (line : String) : String :=
@@ -29,6 +31,8 @@ def dispatch (line : String) : String :=
   | "proxy" :: _ => Drv.Proxy.run toks
   | "besrv" :: _ => Drv.BeSrv.run toks
   | "gpu" :: _ => Drv.Gpu.run toks
+  | "ring" :: _ => Drv.Ring.run toks
+  | "worker" :: _ => Drv.Worker.run toks
   | _ => "bad-family"
 
 partial def loop (h : IO.FS.Stream) (out : IO.FS.Stream) : IO Unit := do
